@@ -12,16 +12,17 @@
 package e5
 
 import (
-	"encoding/hex"
-	"reflect"
 	"bytes"
+	"encoding/hex"
 	"fmt"
 	"io"
+	"math"
 	"math/big"
 	"net/http"
 	"net/http/httptest"
 	"os"
 	"os/exec"
+	"reflect"
 	"sort"
 	"strconv"
 	"strings"
@@ -525,6 +526,23 @@ func handleOracle(i int, fail func(int, string, string, string, string, string, 
 	return nil
 }
 
+// ratOf parses the snapshot's "n/d" rendering of a toxicity.
+func ratOf(s string) (float64, error) {
+	n, d, ok := strings.Cut(s, "/")
+	if !ok {
+		return strconv.ParseFloat(s, 64)
+	}
+	a, err := strconv.ParseFloat(n, 64)
+	if err != nil {
+		return 0, err
+	}
+	b, err := strconv.ParseFloat(d, 64)
+	if err != nil || b == 0 {
+		return 0, fmt.Errorf("bad rational %q", s)
+	}
+	return a / b, nil
+}
+
 // keptOracle: settings the caller does not specify keep their server-side value.
 func keptOracle(i int, fail func(int, string, string, string, string, string, string) *report.Failure, w []string, before, after string, failed bool) *report.Failure {
 	if failed {
@@ -547,6 +565,15 @@ func keptOracle(i int, fail func(int, string, string, string, string, string, st
 		b, a := toxOf(before, w[2], w[3]), toxOf(after, w[2], w[3])
 		if b != "" && a != b {
 			return fail(i, "oracle", "C19", b, a, "a toxic update that does not specify a toxicity changed the toxicity from "+b+" to "+a, "e5:C19:toxicity-not-kept")
+		}
+	case (w[0] == "cli" && w[1] == "tupd") || (w[0] == "c" && (w[1] == "upd" || w[1] == "cupd")):
+		// a toxicity that the caller does give is the toxicity the toxic has afterwards (what the
+		// equivalent HTTP request would do), whatever its value - 0 included
+		b, a := toxOf(before, w[2], w[3]), toxOf(after, w[2], w[3])
+		want, err1 := strconv.ParseFloat(w[4], 64)
+		got, err2 := ratOf(a)
+		if b != "" && a != "" && err1 == nil && err2 == nil && math.Abs(want-got) > 1e-6 {
+			return fail(i, "oracle", "C19", "toxicity "+w[4], "toxicity "+a, "a toxic update that specifies toxicity "+w[4]+" reported success but the toxic's toxicity is "+a+" (before: "+b+")", "e5:C19:toxicity-not-applied")
 		}
 	case w[0] == "cli" && w[1] == "toggle":
 		b, a := e4.ProxyEntry(before, w[2]), e4.ProxyEntry(after, w[2])
